@@ -417,6 +417,58 @@ func c19Replaced(c *Ctx, qs []scen.Query, truth []map[string]bool, only []int) (
 	return evals, cases
 }
 
+// c19Heal: the fault is transient.  The handles of the file lists are replaced
+// by closed descriptors, a query is asked (its retrievals fail), the original
+// handles are put back, and every query is answered as a fresh engine answers
+// it: a failed retrieval leaves nothing behind.
+func c19Heal(c *Ctx, qs []scen.Query, oracle [][]string, only []int) (evals, cases int64) {
+	for kind := 1; kind <= 3; kind++ {
+		for q1 := range qs {
+			if qs[q1].Kind == "newengine" {
+				continue
+			}
+			if only != nil && (only[0] != kind || only[1] != q1) {
+				continue
+			}
+			cases++
+			e, _, fls := c19Build()
+			orig := []*os.File{fls[0].File, fls[1].File}
+			if kind == 1 || kind == 3 {
+				fls[0].File = closedHandle(scen.PathFor(c19Lists[0].Text))
+			}
+			if kind == 2 || kind == 3 {
+				fls[1].File = closedHandle(scen.PathFor(c19Lists[1].Text))
+			}
+			replay := map[string]any{"heal": []int{kind, q1}}
+			if p := protect(func() { c19Result(e, qs[q1]) }); p != nil {
+				c.Run.Violate(ev.Violation{Pred: "no-crash", Sig: map[string]any{"query": qs[q1].String(), "fault": c19FaultKinds[kind]}, What: fmt.Sprintf("%s panics during the fault: %v", qs[q1], p), Replay: replay})
+			}
+			fls[0].File, fls[1].File = orig[0], orig[1]
+			for q2 := range qs {
+				if qs[q2].Kind == "newengine" {
+					continue
+				}
+				var got []string
+				evals++
+				if p := protect(func() { got, _ = c19Result(e, qs[q2]) }); p != nil {
+					c.Run.Violate(ev.Violation{Pred: "no-crash", Sig: map[string]any{"query": qs[q2].String(), "healed": true}, What: fmt.Sprintf("%s panics after the handles were put back: %v", qs[q2], p), Replay: replay})
+					break
+				}
+				if !eqStrings(got, oracle[q2]) {
+					c.Run.Violate(ev.Violation{Pred: "fault-free-answer", Sig: map[string]any{"query": qs[q2].String(), "asked_during_fault": qs[q1].String(), "fault": c19FaultKinds[kind]},
+						What:   fmt.Sprintf("%s; %s asked while the lists could not be read; the original handles put back: %s returns %v, a fresh engine %v", c19FaultKinds[kind], qs[q1], qs[q2], got, oracle[q2]),
+						Replay: replay})
+					break
+				}
+			}
+			for _, f := range orig {
+				_ = f.Close()
+			}
+		}
+	}
+	return evals, cases
+}
+
 func init() {
 	register("C19", "fault_enumeration", func(c *Ctx) {
 		scen.FileDir = os.Getenv("VERIF_WORK")
@@ -597,6 +649,14 @@ func init() {
 				c19MidRead(c)
 				return
 			}
+			if raw, ok := c.Replay["heal"].([]any); ok {
+				var only []int
+				for _, v := range raw {
+					only = append(only, int(v.(float64)))
+				}
+				c19Heal(c, qs, oracle, only)
+				return
+			}
 			if raw, ok := c.Replay["replaced"].([]any); ok {
 				var only []int
 				for _, v := range raw {
@@ -696,6 +756,11 @@ func init() {
 		c.Run.Set("replaced_on_disk_cases", repCases)
 		c.Run.Set("replaced_on_disk_evaluations", repEvals)
 		cases += repCases
+		healEvals, healCases := c19Heal(c, qs, oracle, nil)
+		c.Run.Set("transient_fault_cases", healCases)
+		c.Run.Set("transient_fault_evaluations", healEvals)
+		cases += healCases
+		evals += healEvals
 		evals += largeEvals + midEvals + repEvals
 		c.Run.Set("large_working_set_sizes", fmt.Sprint(largeSizes))
 		c.Run.Set("large_working_set_evaluations", largeEvals)
@@ -705,7 +770,7 @@ func init() {
 		c.Run.Set("fault_cases", cases)
 		c.Run.Set("evaluations", evals)
 		c.Run.Set("distinct_nontrivial", cases)
-		c.Run.Set("rule", fmt.Sprintf("every query history of length 1..%d over %d queries (the longest ones over the first 14) (network/DNS/engine, each hitting a different table or list; two file-backed lists and one string list) x every fault point 0..n x 5 fault kinds (Close, either or both file handles replaced by closed descriptors, both replaced by handles of an empty file), for histories of at most %d queries also followed by every second fault at or after the first; every case is distinct; each query after the fault: no panic, every returned rule truly matches, result subset of the rules that individually match (the fault-free result plus what precedence hid), rules in memory at fault time (cache keys, sequential-table rules, string-backed rules) still served; plus every history of one or two queries x %d ways of replacing the list files on disk (offsets shifted by 1, 2, 7 bytes, files swapped, an exception list of the same layout) x 2 ways of closing the descriptors behind the lists before the last query: nothing of the new files is ever served", n, len(qs), doubleFaultLen, len(c19ReplacementKinds)))
+		c.Run.Set("rule", fmt.Sprintf("every query history of length 1..%d over %d queries (the longest ones over the first 14) (network/DNS/engine, each hitting a different table or list; two file-backed lists and one string list) x every fault point 0..n x 5 fault kinds (Close, either or both file handles replaced by closed descriptors, both replaced by handles of an empty file), for histories of at most %d queries also followed by every second fault at or after the first; every case is distinct; each query after the fault: no panic, every returned rule truly matches, result subset of the rules that individually match (the fault-free result plus what precedence hid), rules in memory at fault time (cache keys, sequential-table rules, string-backed rules) still served; plus every history of one or two queries x %d ways of replacing the list files on disk (offsets shifted by 1, 2, 7 bytes, files swapped, an exception list of the same layout) x 2 ways of closing the descriptors behind the lists before the last query: nothing of the new files is ever served; plus transient faults: a handle replaced by a closed one (3 kinds) while one query is asked, the original handles put back, then every query equals the fresh-engine answer", n, len(qs), doubleFaultLen, len(c19ReplacementKinds)))
 		c.Run.Set("exhaustive", exhaustive)
 		c.Run.Assumption("fault kinds are those reachable through the public API (RuleStorage.Close, exported FileRuleList.File); a read error in the middle of a line is injected at the block boundary (hook point file.read-next-chunk); a list file replaced on disk is combined with descriptors closed behind the lists only (with open descriptors the old file stays readable on this platform)")
 	})
